@@ -46,6 +46,9 @@ REQS = {
     'C': lambda i: dict(kind='req', fc=15, address=1, count=3, byte_count=1, bits=[True, False, True]),
     'R': lambda i: dict(kind='req', fc=3, address=1, count=2),
     'M': lambda i: dict(kind='req', fc=22, address=3, and_mask=0x00FF, or_mask=0x5500),
+    # writes covering a whole table of the layout (8 cells from address 0): one value list reaches every unit of a broadcast
+    'F': lambda i: dict(kind='req', fc=16, address=0, count=8, byte_count=16, registers=[0x0F00 + 16 * i + j for j in range(8)]),
+    'G': lambda i: dict(kind='req', fc=15, address=0, count=8, byte_count=1, bits=[True, False, False, True, True, False, True, False]),
 }
 
 
@@ -215,7 +218,7 @@ def run_one(acc, front, framing, hosted, bc, ign, steps, record=True):
                 else:
                     problems.append('not-applied-to-all' if is_bc else 'wrong-store')
         # calls: a write is applied exactly once to each addressed unit, never to others
-        if kind in ('W', 'C', 'M'):
+        if kind in ('W', 'C', 'M', 'F', 'G'):
             sets = [u for u, op in log if op == 'set']
             if is_bc:
                 targets = sorted(real)
@@ -265,6 +268,12 @@ def shard(args):
                     for b in seq_units:
                         run_one(acc, front, framing, hosted, bc, ign, [(a, 'W'), (b, 'R')])
                         n += 1
+                # a whole-table write, then a write to one unit: what the first one stored is each unit's own copy
+                for a in (0, 1, 2):
+                    for b in (1, 2, 255):
+                        for k1, k2 in (('F', 'W'), ('G', 'C')):
+                            run_one(acc, front, framing, hosted, bc, ign, [(a, k1), (b, k2), (a, 'R')])
+                            n += 1
     run_defaults(acc, front, framing)
     if framing == 'tcp' and front in ('sync-tcp', 'sync-udp', 'aio-udp', 'tw-udp'):
         for a, b in ((1, 2), (2, 1), (1, 1), (9, 1), (1, 9)):
@@ -285,7 +294,7 @@ def run(tier, seed):
                     rule='state = one configuration (front-end, framer, hosted set, flags, request sequence); transition = one request delivered; '
                          'per-unit four-table dumps and per-unit call logs are compared with the reference after every request',
                     bounds='unit ids %s x hosted sets single,{1},{1,2},{0,1},{2,255},{1,247} x broadcast x ignore_missing x 18 front-end/framer pairs x '
-                           '{write register, write coils, read, mask write}; plus all (write to a, read from b) over units {0,1,2,9,247,255}'
+                           '{write register, write coils, read, mask write}; plus all (write to a, read from b) over units {0,1,2,9,247,255}; plus (whole-table write to a, write to b, read a) over a in {0,1,2}, b in {1,2,255}'
                            % ('0..255' if tier == 'thorough' else QUICK_UNITS)),
                 assumptions=['a request to an absent unit may be answered not at all or with gateway exception 0x0A/0x0B',
                              'Twisted has no broadcast option: broadcast rows are not required of it'])
